@@ -152,7 +152,7 @@ def q_bars(name, plan, n0, n1, requant, smax, dmax, multich=False):
         for ti, tr in enumerate(tracks):
             ea, da = abs_events(raw_abs(tr)) if raw_abs(tr) else ([], 0)
             er, dr = rel_events(raw_rel(tr))
-            after_ok.append(and_(events_eq_positionwise(ea, before[ti]), eq(da, durs[ti]),
+            after_ok.append(and_(events_eq_multiset_timed(ea, before[ti]), eq(da, durs[ti]),
                                  events_eq_multiset_timed(er, before[ti]), eq(dr, durs[ti])))
         ctx.must("inputs_unchanged", and_(after_ok))
         return [[obs_rel(raw_rel(b.sequence)) for b in trb] for trb in bars]
